@@ -128,6 +128,8 @@ pub struct Profile {
     /// per-mille probability that an insert / remove / repair step runs with one class-B
     /// (crash point) or primitive-entry fault armed
     pub class_b_permille: u64,
+    /// see `Gen::embedded_k2_permille`
+    pub embedded_k2_permille: u64,
 }
 
 impl Default for Profile {
@@ -151,6 +153,7 @@ impl Default for Profile {
             preset_incident_permille: 0,
             kernel_fault_permille: 0,
             class_b_permille: 0,
+            embedded_k2_permille: 0,
             tick_limit: 0,
         }
     }
@@ -283,6 +286,7 @@ pub fn run<K: SimKernel<D>, const D: usize>(
     gener.nonfinite_permille = profile.nonfinite_permille;
     gener.legal_bias_permille = profile.legal_bias_permille;
     gener.preset_incident_permille = profile.preset_incident_permille;
+    gener.embedded_k2_permille = profile.embedded_k2_permille;
     if let Some(tune) = profile.tune {
         let mut r = Rng::sub(rs, "tune", 0);
         tune(&mut gener.weights, &mut r, D);
